@@ -140,7 +140,7 @@ func TestVerifC01NoiseMatrix(t *testing.T) {
 			for _, ci := range cfgs {
 				for _, cr := range cfgs {
 					n++
-					if n%nshards != shard {
+					if !c01Mine(n, shard, nshards) {
 						continue
 					}
 					if a.expired() {
@@ -283,7 +283,7 @@ func TestVerifC01NoiseWire(t *testing.T) {
 			edits = append(edits, c01wire.Edit{Kind: "swap"})
 			for _, ed := range edits {
 				n++
-				if n%nshards != shard || dry == 2 {
+				if !c01Mine(n, shard, nshards) || dry == 2 {
 					continue
 				}
 				if a.expired() {
